@@ -1,21 +1,26 @@
 ------------------------------ MODULE MC_Style ------------------------------
 (* Model-checking wrapper for Style: all histories of assignments, default changes, resets, copies, *)
-(* rejected assignments and show calls over a small universe, to the fixpoint.                     *)
+(* set_children_styles calls, rejected assignments and show calls over a small universe, to the     *)
+(* fixpoint.  The universe is the subset ObjSet of                                                  *)
 (*   objects  a, c : style class with chain <<magnet>>            (c is the copy partner of a)      *)
 (*            b    : style class with chain <<magnet, triangle>>                                     *)
+(*            k    : Collection with children <<a, k2>>      k2 : Collection with children <<b>>    *)
 (*   leaves   l1   : every object and every family has it (a base leaf)                             *)
 (*            l2   : only b and the family triangle have it                                         *)
 (*            l3   : objects and the families base, magnet have it (only if "l3" \in Leaves)        *)
 EXTENDS Style, TLC
 CONSTANTS Vals,      \* valid abstract values, e.g. {"v1", "v2"}
-          Leaves     \* subset of {"l1", "l2", "l3"}
+          Leaves,    \* subset of {"l1", "l2", "l3"}
+          ObjSet     \* subset of {"a", "b", "c", "k", "k2"}
 VARIABLES st, last
 vars == <<st, last>>
 
-ObjSet == {"a", "b", "c"}
+Colls == ObjSet \cap {"k", "k2"}
 FamSet == {"base", "magnet", "triangle"}
 VU == Vals \cup {Unset}
-ObjHas(o, l) == CASE l = "l1" -> TRUE [] l = "l2" -> o = "b" [] l = "l3" -> TRUE
+ObjHas(o, l) == CASE l = "l1" -> TRUE [] l = "l2" -> o = "b" [] l = "l3" -> o \notin {"k", "k2"}
+SeqIn(s) == LET RECURSIVE F(_) F(t) == IF t = <<>> THEN <<>> ELSE IF Head(t) \in ObjSet THEN <<Head(t)>> \o F(Tail(t)) ELSE F(Tail(t)) IN F(s)
+KidsOf(o) == SeqIn(CASE o = "k" -> <<"a", "k2">> [] o = "k2" -> <<"b">> [] OTHER -> <<>>)
 FamHas(f, l) == CASE l = "l1" -> TRUE [] l = "l2" -> f = "triangle" [] l = "l3" -> f # "triangle"
 V1 == CHOOSE v \in Vals : TRUE
 V2 == CHOOSE v \in Vals : v # V1
@@ -23,7 +28,8 @@ Def0 == [f \in FamSet |-> [l \in Leaves |->
             IF f = "base" /\ l = "l1" THEN V1
             ELSE IF f = "triangle" /\ l = "l2" THEN V2
             ELSE IF f = "magnet" /\ l = "l3" THEN V1 ELSE Unset]]
-Cx == [chain |-> [o \in ObjSet |-> IF o = "b" THEN <<"magnet", "triangle">> ELSE <<"magnet">>],
+Cx == [chain |-> [o \in ObjSet |-> IF o = "b" THEN <<"magnet", "triangle">> ELSE IF o \in {"k", "k2"} THEN <<>> ELSE <<"magnet">>],
+       kids  |-> [o \in ObjSet |-> KidsOf(o)],
        has   |-> [o \in ObjSet |-> [l \in Leaves |-> ObjHas(o, l)]],
        fhas  |-> [f \in FamSet |-> [l \in Leaves |-> FamHas(f, l)]],
        def0  |-> Def0]
@@ -31,13 +37,20 @@ St0 == [objVal |-> [o \in ObjSet |-> [l \in Leaves |-> Unset]], def |-> Def0]
 
 NoKw == [l \in Leaves |-> Unset]
 KwSet == [Leaves -> VU]
-Call(op, tgt, src, l, v, kw, bn) == [op |-> op, tgt |-> tgt, src |-> src, l |-> l, v |-> v, kw |-> kw, badname |-> bn]
+NoAsg == [l \in {} |-> Unset]
+CallX(op, tgt, src, l, v, kw, bn, asg, rec) ==
+    [op |-> op, tgt |-> tgt, src |-> src, l |-> l, v |-> v, kw |-> kw, badname |-> bn, asg |-> asg, rec |-> rec]
+Call(op, tgt, src, l, v, kw, bn) == CallX(op, tgt, src, l, v, kw, bn, NoAsg, FALSE)
+\* what set_children_styles may be given: any non-empty set of leaves, each with a value, None or an invalid value
+Asgs == UNION {[S -> VU \cup {Bad}] : S \in (SUBSET Leaves) \ {{}}}
 Calls ==
        {Call("SetObj", o, "", l, v, NoKw, FALSE) : o \in ObjSet, l \in Leaves \cup {"zzz"}, v \in VU \cup {Bad}}
   \cup {Call("SetDef", f, "", l, v, NoKw, FALSE) : f \in FamSet, l \in Leaves \cup {"zzz"}, v \in VU \cup {Bad}}
   \cup {Call("Reset", "", "", "", Unset, NoKw, FALSE)}
-  \cup {Call("Copy", "c", "a", "", Unset, NoKw, FALSE), Call("Copy", "a", "c", "", Unset, NoKw, FALSE)}
+  \cup (IF {"a", "c"} \subseteq ObjSet THEN {Call("Copy", "c", "a", "", Unset, NoKw, FALSE), Call("Copy", "a", "c", "", Unset, NoKw, FALSE)} ELSE {})
   \cup {Call("Show", "", "", "", Unset, kw, bn) : kw \in [Leaves -> VU \cup {Bad}], bn \in BOOLEAN}
+  \cup {CallX("SetKids", k, "", "", Unset, NoKw, FALSE, asg, rec) : k \in Colls, asg \in Asgs, rec \in BOOLEAN}
+  \cup {CallX("SetKids", k, "", "", Unset, NoKw, TRUE, [l \in {"l1"} |-> V1], rec) : k \in Colls, rec \in BOOLEAN}   \* an invalid name
 
 Init == st = St0 /\ last = [op |-> "init"]
 Next == \E call \in Calls :
@@ -80,6 +93,21 @@ InvalidRejected == [][
     /\ (c.op = "SetObj" /\ c.l \in Leaves /\ ~ObjHas(c.tgt, c.l)) => ~last'.ok
     /\ (c.op = "Show" /\ (c.badname \/ \E l \in Leaves : c.kw[l] = Bad)) => ~last'.ok
   ]_vars
+\* P7 set_children_styles: invalid input rejects the whole call; otherwise exactly the members get exactly the given leaves
+\*    they have, as their own values (so Precedence/Tracking, which hold in every state, put them above the defaults and
+\*    below show keywords, and by P2 a later own assignment wins); the collection itself, objects outside it, deeper levels
+\*    of a non-recursive call and the defaults are untouched
+KidsFrame == [][
+    LET c == last'.call IN
+    c.op = "SetKids" =>
+       /\ (c.badname \/ \E l \in DOMAIN c.asg : c.asg[l] = Bad) => (~last'.ok /\ st' = st)
+       /\ last'.ok => LET mem == Members(Cx, c.tgt, c.rec) IN
+             /\ KidsGot(st', Cx, mem, c.asg) /\ KidsOtherLeavesKept(st, st', Cx, mem, c.asg)
+             /\ NonMembersKept(st, st', mem) /\ c.tgt \notin mem /\ st'.def = st.def
+  ]_vars
+\* membership itself: a recursive call reaches the grandchildren, a non-recursive one stops at the child collection
+KidsMembers == \A k \in Colls : KidSet(Cx, k) \subseteq Descendants(Cx, k) /\ k \notin Descendants(Cx, k)
+                 /\ (k = "k" /\ {"k2", "b"} \subseteq ObjSet => ("b" \in Members(Cx, k, TRUE) /\ "b" \notin Members(Cx, k, FALSE) /\ "k2" \in Members(Cx, k, FALSE)))
 \* P5 reset restores every default and touches no object
 ResetRestores == [][last'.call.op = "Reset" => (st'.def = Def0 /\ st'.objVal = st.objVal)]_vars
 \* P6 a copy carries the values and is a different object: it changes nothing else, and by P3 later
